@@ -170,16 +170,44 @@ Proof.
     assumption.
 Qed.
 
-Lemma call_kinds_check : forall C s aks kwn ks,
-  call_kinds_gen (result_kinds_strict C) s aks kwn = Some ks -> call_kinds false s aks kwn = Some ks.
+(* arguments that pass the check=True test of a matrix built-in are Arrays: the extra test of 47d5901 is
+   not observable there *)
+Lemma result_kinds_check_arrays : forall s a ks, result_kinds true s a = Some ks -> matrix_arrays s a = true.
 Proof.
-  intros C s aks kwn ks H. unfold call_kinds, call_kinds_gen in *.
+  intros s a ks H.
+  destruct s; try reflexivity; simpl in H;
+    repeat match type of H with
+           | context [match ?l with [] => _ | _ :: _ => _ end] => is_var l; destruct l; simpl in H; try discriminate
+           end;
+    try reflexivity; simpl;
+    repeat match type of H with
+           | (if ?b then _ else _) = _ => destruct b eqn:?; simpl in *; try discriminate
+           end;
+    repeat match goal with
+           | E : negb _ = false |- _ => apply negb_false_iff in E
+           | E : _ && _ = true |- _ => apply andb_prop in E; destruct E
+           end;
+    repeat (apply andb_true_intro; split); assumption.
+Qed.
+
+Lemma result_kinds_check_infer : forall na s a ks,
+  result_kinds true s a = Some ks -> result_kinds_infer na s a = Some ks.
+Proof.
+  intros na s a ks H. unfold result_kinds_infer.
+  rewrite (result_kinds_check_arrays s a ks H). simpl. rewrite andb_false_r.
+  apply result_kinds_check. exact H.
+Qed.
+
+Lemma call_kinds_check : forall C na s aks kwn ks,
+  call_kinds_gen (result_kinds_strict C) s aks kwn = Some ks -> call_kinds_infer na s aks kwn = Some ks.
+Proof.
+  intros C na s aks kwn ks H. unfold call_kinds_infer, call_kinds_gen in *.
   destruct s; try assumption;
     destruct (split_args aks kwn) as [pos kw];
     match goal with |- context [resolve ?n ?p ?k] => destruct (resolve n p k) as [a|]; [|discriminate] end;
     unfold result_kinds_strict in H;
     match type of H with (if ?b then _ else _) = _ => destruct b; [|discriminate] end;
-    apply result_kinds_check; assumption.
+    apply result_kinds_check_infer; assumption.
 Qed.
 
 (* ------------------------------------------------------------------ sums and products *)
@@ -464,7 +492,7 @@ Section MapperSound.
       destruct (arg_kinds (map (kmap C reg G L) args)) as [aks|] eqn:Ha; [|discriminate].
       apply andb_prop in Hco. destruct Hco as [Hnn Hck].
       destruct (call_kinds_gen (result_kinds_strict C) s aks kwn) as [ks|] eqn:Hcs; [|discriminate].
-      rewrite (call_kinds_check _ _ _ _ _ Hcs) in Hk.
+      rewrite (call_kinds_check _ (need_arrays C) _ _ _ _ Hcs) in Hk.
       destruct ks as [|k [|k2 ks]]; try discriminate. inversion Hk; subst.
       exists k. split; [reflexivity|]. simpl. rewrite Hf.
       intros c Hc. apply in_flat_map in Hc. destruct Hc as [vals [Hv Hc]].
@@ -569,13 +597,13 @@ Proof.
       apply store_ok_cremove. apply store_ok_cset with (k := kx); [assumption | assumption |].
       apply kind_le_sound with (a := k); [assumption | apply Hsound; assumption].
   - apply andb_prop in Hs. destruct Hs as [Hs Hco]. apply andb_prop in Hs. destruct Hs as [Hk Hside].
-    destruct (kcall reg f (map (kmap C reg (sg T) (local_of T ph)) args) kwn) as [ks|] eqn:Ek; [|discriminate].
+    destruct (kcall C reg f (map (kmap C reg (sg T) (local_of T ph)) args) kwn) as [ks|] eqn:Ek; [|discriminate].
     unfold call_ok in Hco. unfold kcall in Ek.
     destruct (rlookup reg f) as [s0|] eqn:Hf; [|discriminate].
     destruct (arg_kinds (map (kmap C reg (sg T) (local_of T ph)) args)) as [aks|] eqn:Ha; [|discriminate].
     apply andb_prop in Hco. destruct Hco as [Hnn Hck].
     destruct (call_kinds_gen (result_kinds_strict C) s0 aks kwn) as [ks'|] eqn:Hcs; [|discriminate].
-    rewrite (call_kinds_check _ _ _ _ _ Hcs) in Ek. inversion Ek; subst ks'.
+    rewrite (call_kinds_check _ (need_arrays C) _ _ _ _ Hcs) in Ek. inversion Ek; subst ks'.
     apply in_flat_map in Hin. destruct Hin as [vals [Hv Hin]].
     apply in_flat_map in Hin. destruct Hin as [r [Hr Hin]].
     destruct (Nat.eqb (List.length r) (List.length xs)); [|contradiction].
